@@ -248,6 +248,16 @@ func (e *TermEnv) Returns(f *ssa.Function) ([][]Term, bool) {
 }
 
 func (e *TermEnv) returnsOf(f *ssa.Function, depth int) ([][]Term, bool) {
+	return e.walkPaths(f, depth, nil)
+}
+
+// StoredOnPaths lists, for every feasible path of f to a return, the terms of the values
+// written by the stores selected by match on that path (in block order).
+func (e *TermEnv) StoredOnPaths(f *ssa.Function, match func(*ssa.Store) bool) ([][]Term, bool) {
+	return e.walkPaths(f, e.Depth, match)
+}
+
+func (e *TermEnv) walkPaths(f *ssa.Function, depth int, match func(*ssa.Store) bool) ([][]Term, bool) {
 	var out [][]Term
 	complete := true
 	var walk func(b, pred *ssa.BasicBlock, p *termPath)
@@ -295,8 +305,21 @@ func (e *TermEnv) returnsOf(f *ssa.Function, depth int) ([][]Term, bool) {
 				return
 			}
 			var rs []Term
-			for i := range t.Results {
-				rs = append(rs, e.term(RetVal(t, i), np, depth))
+			if match != nil {
+				for _, pb := range f.Blocks {
+					if !np.on[pb] {
+						continue
+					}
+					for _, in := range pb.Instrs {
+						if st, ok := in.(*ssa.Store); ok && match(st) {
+							rs = append(rs, e.term(st.Val, np, depth))
+						}
+					}
+				}
+			} else {
+				for i := range t.Results {
+					rs = append(rs, e.term(RetVal(t, i), np, depth))
+				}
 			}
 			out = append(out, rs)
 		case *ssa.If:
